@@ -61,7 +61,9 @@ class ByteChanSpec(Spec):
     state_measure = "distinct (configuration class, fault-kind set, receiver verdict classes) tuples"
     components = {
         "real": [
-            "vc2_conformance.encoder.make_sequence (sender)",
+            "vc2_conformance.encoder.make_sequence (sender; seeded small configurations incl. mixed-geometry sequences, padding/auxiliary units, colour specs, 1-39 bit depths)",
+            "vc2_conformance.test_cases decoder test-case generators for eight corpus columns (sender; 16% of workloads)",
+            "simulation B's data-unit channel over real encoder output (sender; 20% of workloads)",
             "vc2_conformance.bitstream.autofill_and_serialise_stream (sender)",
             "vc2_conformance.decoder.parse_stream (validating decoder)",
             "vc2_conformance.bitstream Deserialiser/Serialiser + vc2.parse_stream",
@@ -70,6 +72,7 @@ class ByteChanSpec(Spec):
             "file objects (sim.core.SimFile)",
             "channel/disk (sim.faults.apply_faults)",
             "scope guard wrapped around decoder assert_level_constraint (harness process only)",
+            "isolation invariant: library process-global tables restored to pristine before, and compared after, every run",
         ],
     }
     assumptions = [
@@ -250,7 +253,7 @@ class C02(ByteChanSpec):
     quick_runs = 36000
     thorough_runs = 1200000
     rule = (
-        "each run = one seeded workload (real encoder output for a seeded small codec configuration, or raw bytes) "
+        "each run = one seeded workload (real encoder output for a seeded small codec configuration, a stream from the real decoder test-case generators, a data-unit history from simulation B's channel, or raw bytes) "
         "pushed through a channel applying an explicit list of 0-6 faults (bit flips, byte sets, bursts, zero-fill, "
         "truncation, deletion, duplication, insertion, swaps, appended bytes, field-aware overwrites of parse_info / "
         "header varints / slice lengths / picture numbers / coefficient bits, unit drop/dup) and fed to the real "
